@@ -107,7 +107,7 @@ def has_div(t):
 
 
 def kind(t):
-    return {"r": "r", "c": "c"}.get(t[0], "e")
+    return {"r": "r", "c": "c", "T": "T"}.get(t[0], "e")
 
 
 def flags(t):
@@ -402,6 +402,8 @@ def plan(tier):
         P.append(("w3-n1-thr8", 3, 1, True, None, 8))
         P.append(("w8-n1-thr2", 8, 1, True, None, 2))
         P.append(("w8-multipart", 8, 2, False, "multipart", 0))
+        P.append(("w8-n1-top", 8, 1, False, "top", 0))
+        P.append(("w3-n2-top", 3, 2, False, "top", 0))
     else:
         for W in (1, 2, 3, 4, 8):
             P.append(("w%d-n1" % W, W, 1, True, None, 0))
@@ -413,6 +415,9 @@ def plan(tier):
         P.append(("w3-n2-thr8", 3, 2, False, None, 8))
         P.append(("w8-n1-thr2", 8, 1, True, None, 2))
         P.append(("w8-multipart", 8, 2, True, "multipart", 0))
+        P.append(("w8-n1-top", 8, 1, True, "top", 0))
+        P.append(("w3-n2-top", 3, 2, False, "top", 0))
+        P.append(("w4-n2-top", 4, 2, False, "top", 0))
     return P
 
 
@@ -457,6 +462,13 @@ def trees_of(W, n, full, opsel):
     ops = None
     if opsel == "multipart":
         return multipart_trees(W, full)
+    if opsel == "top":
+        # trees with at least one unknown ("top") leaf: only widths are decidable
+        en = X.Enum(W, top_leaf=True)
+        out = []
+        for w in en.widths:
+            out.extend(t for t in en.trees(n, w, full) if '"T"' in json.dumps(t))
+        return out
     if opsel == "reassoc":
         ops = set(["+", "-", "&", "|", "^", "x", "~"])
         en = X.Enum(W, ops=ops, widths=[W])
@@ -526,7 +538,8 @@ def run_pass(tier, seed):
         trees = core.rotate(trees, seed)
         nchunks = max(1, min(len(trees) // 200, core.NPROC * 8))
         chunks = [trees[i::nchunks] for i in range(nchunks)]
-        res = core.pmap(run_chunk, [(W, widths, thr, c, 1 if tier == "quick" else 2) for c in chunks if c])
+        rawmax = 2 if (tier != "quick" or label.endswith("-top")) else 1
+        res = core.pmap(run_chunk, [(W, widths, thr, c, rawmax) for c in chunks if c])
         ps = {}
         for st, out in res:
             for k, v in st.items():
